@@ -692,6 +692,20 @@ func genC18(r *rand.Rand, run int, tier string) *vm.Plan {
 	az := h.add(vm.Op{K: "az", A: toks[0], KS: &vm.KeySel{Key: key}, Lim: bigDur, Out: h.slot()})
 	h.add(vm.Op{K: "azadd", A: az, Az: &content, Perm: r.Perm(len(content.Facts) + len(content.Rules) + len(content.Checks))})
 	snap := h.add(vm.Op{K: "azsave", A: az, Out: h.slot()})
+	if r.Intn(4) == 0 {
+		// a template authorizer that is saved more than once: the snapshot that goes to disk is its
+		// first; afterwards it is reset, given less, and saved again (and once more after an addition)
+		azs := h.add(vm.Op{K: "az", A: toks[0], KS: &vm.KeySel{Key: key}, Lim: bigDur, Out: h.slot()})
+		h.add(vm.Op{K: "azadd", A: azs, Az: &content})
+		snap = h.add(vm.Op{K: "azsave", A: azs, Out: h.slot()})
+		h.add(vm.Op{K: "azreset", A: azs})
+		small := g.AuthzFor(auth.Facts, 1, 0, 1, 1)
+		h.add(vm.Op{K: "azadd", A: azs, Az: &small})
+		h.add(vm.Op{K: "azsave", A: azs, Out: h.slot()})
+		more := ref.Authz{Facts: g.Facts(1 + r.Intn(2))}
+		h.add(vm.Op{K: "azadd", A: azs, Az: &more})
+		h.add(vm.Op{K: "azsave", A: azs, Out: h.slot()})
+	}
 	// saving is refused once evaluated
 	switch r.Intn(3) {
 	case 0:
